@@ -729,11 +729,12 @@ func genEnc(g *h.Gen) {
 		}
 	}
 	// 1. sweeps: xterm (has an ACS map) over the BMP; an entry without ACS map and vt220 (padding in smacs) over the special runes
+	perLine := 4 // B ops per line (one screen per line)
 	emitSweep := func(cs string, cd *codec, entry string, runes []int, tw int) {
 		for i := 0; i < len(runes); {
 			var ops []string
 			ops = append(ops, fmt.Sprintf("cfg %s %s %s %d", v, entry, cs, tw))
-			for k := 0; k < 4 && i < len(runes); k++ {
+			for k := 0; k < perLine && i < len(runes); k++ {
 				// maximal arithmetic run of at most 64 runes
 				j, step := i+1, 1
 				if j < len(runes) {
@@ -777,8 +778,10 @@ func genEnc(g *h.Gen) {
 	// 1b. the alias spellings encoding/all.go registers (8859-9, ISO-8859-9, SJIS, EUCJP, EUCKR, 646, ISO646, ASCII, UTF8): the
 	// name selects the same code page as the canonical spelling.  Single-byte code pages: every rune some single-byte
 	// charset has (the runes in which two such code pages can differ) plus the special runes; multi-byte ones: Latin /
-	// Greek / Cyrillic, the special runes and a stride through the CJK part of the BMP (thorough: the whole BMP for both).
+	// Greek / Cyrillic, the special runes and a stride through the CJK part of the BMP (thorough: what quick sweeps for the
+	// canonical names).
 	aliases := refAliasesOf(c17Charsets)
+	perLine = 32 // scattered runes make short arithmetic runs: more of them per screen
 	for ai, al := range aliases {
 		cd := newCodec(al)
 		if cd == nil {
@@ -791,18 +794,27 @@ func genEnc(g *h.Gen) {
 		switch {
 		case g.Thorough():
 			for c := 0x20; c < 0x10000; c++ {
-				set[c] = true
+				if c < 0x3000 || c%7 == ai%7 {
+					set[c] = true
+				}
 			}
 		case refIsMulti(al):
 			for c := 0xa0; c < 0x500; c++ {
 				set[c] = true
 			}
-			for c := 0x3000 + ai%23; c < 0x10000; c += 23 {
+			for c := 0x3000 + ai%47; c < 0x10000; c += 47 {
 				set[c] = true
 			}
 		case !refIsUTF8(al) && !refIsASCII(al):
-			for _, c := range refSingleRepertoire() {
+			// the charset's own repertoire (a name bound to another code page cannot encode all of it the same way) …
+			for _, c := range refRepertoire(al) {
 				set[c] = true
+			}
+			// … and a rotating slice of what the other single-byte code pages have
+			for k, c := range refSingleRepertoire() {
+				if k%6 == ai%6 {
+					set[c] = true
+				}
 			}
 		}
 		var runes []int
@@ -848,8 +860,10 @@ func genEnc(g *h.Gen) {
 		}
 		var touched []int
 		for j := 0; j < nops; j++ {
-			if r.Chance(6) {
-				ops = append(ops, "X") // the other screen of the case: its own registrations
+			if r.Chance(6) && entry != "wy60" && entry != "vt52" && entry != "vt220" {
+				// the other screen of the case: its own registrations (not on the entries whose initialisation strings carry
+				// padding delays: a second Init would double the 0.2 s such a line costs)
+				ops = append(ops, "X")
 			}
 			switch k := r.Intn(100); {
 			case k < 50:
